@@ -1,10 +1,13 @@
 """C11 — the Niemeyer geohash codec is a consistent hierarchical tiling (bases 16, 32, 64)."""
 import itertools
 import math
+import zlib
 from fractions import Fraction as F
 
 import common
 from common import rat, tf
+from datetime import datetime, timezone
+from geohash_twice import FOREIGN, Unstable, edit, guard, twice
 
 MODULE = 'GeoVerif.Props.C11'
 THEOREMS = ['GV.Geohash.' + t for t in (
@@ -164,38 +167,70 @@ def _cell(d):
     return lon - le, lat - la, lon + le, lat + la
 
 
+def _box_seq(fn, h, b, line):
+    """cell -> GeoBox/GeoPolygon observed as a sequence: a first caller passes dt and a properties dict and edits the
+    shape it got (set_property, set_dt, corners, outline, holes); then the plain call is made twice with an edit in
+    between.  The caller's dict must be untouched and nothing of the earlier callers may show on the later results."""
+    if zlib.crc32(line.encode()) % 3 == 0:
+        mine = {'k': 1}
+        r0 = fn(h, b, datetime(2020, 1, 1, tzinfo=timezone.utc), mine)
+        if mine != {'k': 1}:
+            raise Unstable(f'{fn.__qualname__}: the caller\'s properties dict was edited: {mine}')
+        edit(r0, len(line))
+    r = twice(fn, h, b, salt=line)
+    props = dict(r._properties)
+    if 'k' in props or any(FOREIGN in str(k) or FOREIGN in str(v) for k, v in props.items()) or r.dt is not None or r.holes:
+        raise Unstable(f'{fn.__qualname__}: result carries an earlier caller\'s state: properties {props}, dt {r.dt}, '
+                       f'{len(r.holes)} holes')
+    return r
+
+
+@guard
 def impl(line):
+    """every library call is made as the sequence call / edit the result / call again (geohash_twice.twice); the
+    answer is the SECOND result, `UNSTABLE …` if it differs from the first"""
     Coordinate, GeoBox, GeoPoint, GeoPolygon, G = _mods()
     cmd, *a = line.split()
     op = cmd.split('.', 1)[1]
     b = int(a[0])
+
+    # tuples and strings cannot be edited by a caller: for them only state carried from call to call matters,
+    # which a quarter of the lines (chosen by the line itself) observe
+    rep = zlib.crc32(line.encode()) % 4 == 0
+
+    def dec(h):
+        return twice(G._decode_niemeyer, h, b, salt=line) if rep else G._decode_niemeyer(h, b)
+
+    def enc(c, L):
+        return twice(G._coord_to_niemeyer, c, L, b, salt=line) if rep else G._coord_to_niemeyer(c, L, b)
     if op == 'dec':
-        return ' '.join(rat(v) for v in G._decode_niemeyer(untok(a[1]), b))
+        return ' '.join(rat(v) for v in dec(untok(a[1])))
     if op == 'enc':
-        return tok(G._coord_to_niemeyer(Coordinate(_fl(a[2]), _fl(a[3])), int(a[1]), b))
+        return tok(enc(Coordinate(_fl(a[2]), _fl(a[3])), int(a[1])))
     if op == 'encp':
-        r = G.NiemeyerHasher(int(a[1]), b).hash_shape(GeoPoint(Coordinate(_fl(a[2]), _fl(a[3]))))
+        hasher, pt = G.NiemeyerHasher(int(a[1]), b), GeoPoint(Coordinate(_fl(a[2]), _fl(a[3])))
+        r = twice(hasher.hash_shape, pt, salt=line)
         if len(r) != 1:
             return f'set-of-{len(r)}'
         return tok(next(iter(r)))
     if op == 'rt':
         L = int(a[1])
         c = Coordinate(_fl(a[2]), _fl(a[3]))
-        h = G._coord_to_niemeyer(c, L, b)
-        x0, y0, x1, y1 = _cell(G._decode_niemeyer(h, b))
+        h = enc(c, L)
+        x0, y0, x1, y1 = _cell(dec(h))
         inside = x0 <= F(c.longitude) <= x1 and y0 <= F(c.latitude) <= y1
         pre = all(G._coord_to_niemeyer(c, l, b) == h[:l] for l in range(L))
         return f'{len(h)} {tf(all(ch in ALPHABET[b] for ch in h))} {tf(inside)} {tf(pre)}'
     if op == 'cen':
         h = untok(a[1])
-        lon, lat, _le, _la = G._decode_niemeyer(h, b)
-        return tok(G._coord_to_niemeyer(Coordinate(lon, lat), len(h), b))
+        lon, lat, _le, _la = dec(h)
+        return tok(enc(Coordinate(lon, lat), len(h)))
     if op == 'sub':
-        return ' '.join(sorted(tok(k) for k in G._get_niemeyer_subhashes(untok(a[1]), b)))
+        return ' '.join(sorted(tok(k) for k in twice(G._get_niemeyer_subhashes, untok(a[1]), b, salt=line)))
     if op == 'tile':
         h = untok(a[1])
-        kids = G._get_niemeyer_subhashes(h, b)
-        p = _cell(G._decode_niemeyer(h, b))
+        kids = twice(G._get_niemeyer_subhashes, h, b, salt=line)
+        p = _cell(dec(h))
         cs = [_cell(G._decode_niemeyer(k, b)) for k in kids]
         inside = all(p[0] <= c[0] and p[1] <= c[1] and c[2] <= p[2] and c[3] <= p[3] for c in cs)
         disjoint = all(not (max(c[0], d[0]) < min(c[2], d[2]) and max(c[1], d[1]) < min(c[3], d[3]))
@@ -203,26 +238,29 @@ def impl(line):
         area = sum((c[2] - c[0]) * (c[3] - c[1]) for c in cs)
         return f'{len(kids)} {tf(inside)} {tf(disjoint)} {tf(area == (p[2] - p[0]) * (p[3] - p[1]))}'
     if op == 'box':
-        return _show_box(G.niemeyer_to_geobox(untok(a[1]), b))
+        return _show_box(_box_seq(G.niemeyer_to_geobox, untok(a[1]), b, line))
     if op == 'gbox':
-        return _show_box(GeoBox.from_niemeyer_geohash(untok(a[1]), b))
+        return _show_box(_box_seq(GeoBox.from_niemeyer_geohash, untok(a[1]), b, line))
     if op == 'boxhas':
         c = Coordinate(_fl(a[2]), _fl(a[3]))
-        h = G._coord_to_niemeyer(c, int(a[1]), b)
-        return tf(G.niemeyer_to_geobox(h, b).contains_coordinate(c))
+        h = enc(c, int(a[1]))
+        return tf(twice(G.niemeyer_to_geobox, h, b, salt=line).contains_coordinate(c))
     if op == 'poly':
-        return _show_poly(GeoPolygon.from_niemeyer_geohash(untok(a[1]), b).outline)
+        return _show_poly(_box_seq(GeoPolygon.from_niemeyer_geohash, untok(a[1]), b, line).outline)
     if op == 'sur':
-        return ' '.join(tok(k) for k in G.NiemeyerHasher._get_surrounding(untok(a[1]), b))
+        return ' '.join(tok(k) for k in twice(G.NiemeyerHasher._get_surrounding, untok(a[1]), b, salt=line))
     if op == 'hc':
         L, agg = int(a[1]), a[2]
         cs = [Coordinate(_fl(x), _fl(y)) for x, y in zip(a[3::2], a[4::2])]
+        before = [(c.longitude, c.latitude) for c in cs]
         idx = {id(c): n for n, c in enumerate(cs)}
         hasher = G.NiemeyerHasher(L, b)
         if agg == 'len':
-            d = hasher.hash_coordinates(cs)
+            d = twice(hasher.hash_coordinates, cs, salt=line)
         else:
-            d = hasher.hash_coordinates(cs, agg_fn=lambda l: '.'.join(str(idx[id(c)]) for c in l))
+            d = twice(hasher.hash_coordinates, cs, salt=line, agg_fn=lambda l: '.'.join(str(idx[id(c)]) for c in l))
+        if [(c.longitude, c.latitude) for c in cs] != before or len(cs) != len(before):
+            raise Unstable('hash_coordinates edited the caller\'s coordinate list')
         return ' '.join(f'{k}={v}' for k, v in sorted((tok(k), v) for k, v in d.items()))
     raise ValueError('unknown op ' + op)
 
@@ -436,8 +474,8 @@ def check(run):
         # every corner / edge mid point / centre of every cell of the deepest level, encoded at every length ≤ depth
         lines = []
         deep = list(all_hashes(b, depth))
-        if run.quick and len(deep) > 1500:
-            deep = rng.sample(deep, 1500)
+        if run.quick and len(deep) > 1000:
+            deep = rng.sample(deep, 1000)
         for h in deep:
             x0, y0, x1, y1 = cell_rect(b, h)
             for (x, y) in ((x0, y0), (x1, y1), ((x0 + x1) / 2, y1), (x0, (y0 + y1) / 2), (x1, y0)):
